@@ -5,6 +5,7 @@ mod exec;
 mod gen;
 mod rng;
 mod props;
+mod bytecase;
 
 use std::io::Write;
 
